@@ -7,6 +7,7 @@ From Coq Require Import List NArith Bool.
 From StgV Require Import Model.Chars Model.Name Model.Stack Model.Cmd Model.StackSpec
   Model.IdentSpec Proofs.IdentProofs.
 Import ListNotations.
+Local Open Scope nat_scope.
 
 (* commit objects are immutable: no command ever alters or drops a commit that exists *)
 Theorem C08_commits_immutable :
